@@ -13,9 +13,9 @@
       the RECORDED outcome is taken.  The run is reproduced iff every action is consumed.  The scheduler never invents
       a model step and never skips one.
 
-   The one thing the library does that SLane has no step for — the need_override wakeup of a push onto a non-empty list
-   (queue.c:5077-5088) — is replayed by `override_step`, which is spelled out here and NOT part of SLane.gstep; the
-   checker reports how many such steps a run needed. *)
+   The need_override continuation of a push onto a non-empty list (queue.c:5077-5088) is SLane.ostep followed by the
+   PA_oprobe / PA_owake steps of SLane.gstep; which continuation a push took is read off the trace (the event after the
+   link store is the return mark or the probe).  Every action is a step of SLane: there is nothing outside the model. *)
 From Coq Require Import ZArith Bool List.
 From Verif Require Import Word Conc Gen_consts Gen_fields Gen_dqstate SLane SLaneT.
 Import ListNotations.
@@ -27,19 +27,18 @@ Definition shape (p : pc) : Z :=
   | Idle => 0 | PA_xchg _ => 1 | PA_link _ we _ => if we then 3 else 2 | PA_probe _ => 4 | PA_wake _ _ => 5
   | PA_rootpush => 6 | PW_lock _ => 7 | PW_tail _ => 8 | PW_head _ => 9 | PW_pop _ => 10
   | PW_run _ _ m => if m then 12 else 11 | PW_incall _ _ m => if m then 14 else 13
-  | PW_next _ m => if m then 16 else 15 | PW_unlock _ => 17 | PW_xor _ => 18
+  | PW_next _ m => if m then 16 else 15 | PW_unlock _ => 17 | PW_xor _ => 18 | PA_oprobe _ => 19 | PA_owake _ => 20
   end.
 Definition SH_IDLE := 0. Definition SH_LINK (we : bool) := if we then 3 else 2. Definition SH_PROBE := 4.
 Definition SH_WAKE := 5. Definition SH_ROOTPUSH := 6. Definition SH_LOCK := 7. Definition SH_TAIL := 8.
 Definition SH_HEAD := 9. Definition SH_POP := 10. Definition SH_RUN (m : bool) := if m then 12 else 11.
 Definition SH_INCALL (m : bool) := if m then 14 else 13. Definition SH_NEXT (m : bool) := if m then 16 else 15.
-Definition SH_UNLOCK := 17. Definition SH_XOR := 18.
+Definition SH_UNLOCK := 17. Definition SH_XOR := 18. Definition SH_OPROBE := 19. Definition SH_OWAKE := 20.
 
 (* one model action of a thread with the recorded outcome.
-   kind: 0 = ABegin (CAsync arg), 1 = ABegin (CWorker arg), 2 = AStep, 3 = override wakeup with wakeup qos arg (outside
-   SLane; sh = 1 iff it set ENQUEUED), 4 = root push of an override wakeup (outside SLane), 5 = a root push not yet attributed;
-   sh = shape of the thread's program point after the action; stv = dq_state after
-   the action, or -1 when the action does not write it; item = address of the item concerned (0: none);
+   kind: 0 = ABegin (CAsync arg), 1 = ABegin (CWorker arg), 2 = AStep, 6 = AStepO;
+   sh = shape of the thread's program point after the action; stv = dq_state after the action, or -1 when the action does not
+   write it; item = address of the item concerned (0: none);
    early = 1 when the action is a plain read whose outcome (list empty) held since the thread's previous action *)
 Record mact := { m_kind : Z; m_arg : Z; m_sh : Z; m_st : Z; m_item : Z; m_early : Z }.
 Definition MA (k a sh stv item early : Z) : mact :=
@@ -52,18 +51,22 @@ Definition unlock_refused (o old : Z) : bool :=
   match f_dispatch_queue_drain_try_unlock 0 o 1 old with NoCommit _ _ => true | _ => false end.
 Definition nzb (x : Z) : bool := negb (x =? 0).
 
-(* the SLane actions completed by the transition p --e--> p' of the observation automaton *)
-Definition mabs (c : cfg) (p : tpc) (e : event) (p' : tpc) : list mact :=
+(* the SLane actions completed by the transition p --e--> p' of the observation automaton; next_ret: the event that follows
+   e in the trace is the return mark (decides which continuation a push onto a non-empty list took) *)
+Definition mabs (c : cfg) (p : tpc) (e : event) (p' : tpc) (next_ret : bool) : list mact :=
   match p, p' with
   | TIdle, TA_init q => [MA 0 q 1 (-1) 0 0]
   | TA_xchg _ _, TA_link _ item prev => [mstep (SH_LINK (prev =? 0)) (-1) item]
   | TA_link _ _ _, TA_probe _ _ => [mstep SH_PROBE (-1) 0]
-  | TA_link _ _ _, TA_linked _ => [mstep SH_IDLE (-1) 0]
-  | TA_probe _ fl, TA_ret => if fl =? FL_PUSH then [mstep SH_IDLE (-1) 0] else []
-  | TA_probe _ fl, TA_wake_load _ _ => if fl =? FL_PUSH then [mstep SH_WAKE (-1) 0] else []
-  | TA_wake_body q fl _, TA_push_tq => if fl =? FL_PUSH then [mstep SH_ROOTPUSH (eb e) 0] else [MA 3 q 1 (eb e) 0 0]
-  | TA_wake_body q fl _, TA_ret => if fl =? FL_PUSH then [mstep SH_IDLE (eb e) 0] else [MA 3 q 0 (eb e) 0 0]
-  | TA_push_xchg, TA_push_link _ => [MA 5 0 SH_IDLE (-1) 0 0]     (* resolved below: 2 for a SLane wakeup, 4 for an override *)
+  | TA_link _ _ _, TA_linked _ => if next_ret then [mstep SH_IDLE (-1) 0] else [MA 6 0 SH_OPROBE (-1) 0 0]
+  | TA_probe _ _, TA_ret => [mstep SH_IDLE (-1) 0]
+  | TA_probe _ _, TA_wake_load _ _ => [mstep SH_WAKE (-1) 0]
+  | TA_linked _, TA_ret => [mstep SH_IDLE (-1) 0]
+  | TA_linked _, TA_wake_load _ _ => [mstep SH_OWAKE (-1) 0]
+  | TA_wake_body _ _ _, TA_push_tq => [mstep SH_ROOTPUSH (eb e) 0]
+  | TA_wake_body _ _ _, TA_ret => [mstep SH_IDLE (eb e) 0]
+  | TA_wake_body _ _ _, TIdle => [mstep SH_IDLE (-1) 0]              (* the loop gave up (PA_owake, nothing to change) *)
+  | TA_push_xchg, TA_push_link _ => [mstep SH_IDLE (-1) 0]
   | TIdle, TW_lock_body f v =>
       MA 1 (c_floor c) SH_LOCK (-1) 0 0 :: (if lock_restarts c f v then [mstep SH_LOCK (-1) 0] else [])
   | TW_lock_body _ _, TW_lock_body f v => if lock_restarts c f v then [mstep SH_LOCK (-1) 0] else []
@@ -88,17 +91,15 @@ Definition mabs (c : cfg) (p : tpc) (e : event) (p' : tpc) : list mact :=
   | _, _ => []
   end.
 
-(* whether the wakeup in progress is SLane's (flags PUSH) or the override one: carried along the run *)
-Fixpoint mrun (c : cfg) (p : tpc) (tr : list event) (i : Z) (ovr : bool) (acc : list (Z * mact)) : list (Z * mact) :=
+Fixpoint mrun (c : cfg) (p : tpc) (tr : list event) (i : Z) (acc : list (Z * mact)) : list (Z * mact) :=
   match tr with
   | [] => rev acc
   | e :: r =>
       match tstep c p e with
       | None => rev acc
       | Some p' =>
-          let ovr' := match p with TA_linked _ => negb (ev_kind e DVU_RET) | TIdle => false | _ => ovr end in
-          let fix_kind (a : mact) := if m_kind a =? 5 then MA (if ovr' then 4 else 2) 0 (m_sh a) (m_st a) 0 0 else a in
-          mrun c p' r (i + 1) ovr' (rev_append (map (fun a => (i, fix_kind a)) (mabs c p e p')) acc)
+          let next_ret := match r with e2 :: _ => ev_kind e2 DVU_RET | [] => true end in
+          mrun c p' r (i + 1) (rev_append (map (fun a => (i, a)) (mabs c p e p' next_ret)) acc)
       end
   end.
 (* output for the checker: small numbers only (Coq prints big numerals slowly): per action the event index and
@@ -107,18 +108,9 @@ Fixpoint mrun (c : cfg) (p : tpc) (tr : list event) (i : Z) (ovr : bool) (acc : 
 Definition enc_mact (x : Z * mact) : list Z :=
   let '(i, a) := x in
   [i; (((m_kind a * 8 + m_arg a) * 32 + m_sh a) * 2 + m_early a) * 2 + (if m_st a =? -1 then 0 else 1)].
-Definition abstract (c : cfg) (tr : list event) : list Z := concat (map enc_mact (mrun c TIdle tr 0 false [])).
+Definition abstract (c : cfg) (tr : list event) : list Z := concat (map enc_mact (mrun c TIdle tr 0 [])).
 
 (* ------------------------------------------------------------------ the scheduler *)
-(* the override wakeup, which SLane does not have: the rmw loop of _dispatch_queue_wakeup WITHOUT MAKE_DIRTY
-   (flags = DISPATCH_WAKEUP_CONSUME_2), by a thread that SLane considers idle; when it sets ENQUEUED the thread then
-   pushes the lane on its root queue *)
-Definition override_step (s : gst) (q : Z) : option (gst * bool) :=
-  match wakeup_loop 0 q FL_CONSUME_2 1 (st s) ENQUEUED with
-  | Commit new _ => Some (set_st s new, negb (Z.land (Z.lxor (st s) new) ENQUEUED =? 0))
-  | _ => None
-  end.
-
 (* a scheduled action: the thread, the action, the id SLane must give / have given to the item (or -1) *)
 Record sact := { s_tid : Z; s_act : mact; s_id : Z }.
 
@@ -132,12 +124,7 @@ Definition try_act (s : gst) (a : sact) : option gst :=
   if m_kind m =? 0 then match begin s t (CAsync (m_arg m)) with Some s' => chk s' | None => None end
   else if m_kind m =? 1 then match begin s t (CWorker (m_arg m)) with Some s' => chk s' | None => None end
   else if m_kind m =? 2 then match gstep s t with Some s' => chk s' | None => None end
-  else if m_kind m =? 3 then
-    match pcs s t, override_step s (m_arg m) with
-    | Idle, Some (s', enq) => if (st s' =? m_st m) && (b2z enq =? m_sh m) then Some s' else None
-    | _, _ => None
-    end
-  else if m_kind m =? 4 then match pcs s t with Idle => Some (set_rootq s (rootq s + 1)) | _ => None end
+  else if m_kind m =? 6 then match ostep s t with Some s' => chk s' | None => None end
   else None.
 
 Fixpoint lookup (t : Z) (qs : list (Z * list sact)) : list sact :=
